@@ -1,4 +1,4 @@
-// Prelude: abstract hasher (T8); needs field_abs.  hash_or_noop / hash_no_pad / two_to_one are uninterpreted specification
+// Prelude: abstract hasher (T8); needs field_abs, perm.  hash_or_noop / hash_no_pad / two_to_one are uninterpreted specification
 // functions of their arguments; nothing is assumed about them except that they are functions.
 pub trait GenericHashOut<F: RichField>: Sized + Copy + PartialEq {
     spec fn elems(self) -> Seq<F>;
@@ -17,6 +17,8 @@ pub trait GenericHashOut<F: RichField>: Sized + Copy + PartialEq {
 
 pub trait Hasher<F: RichField>: Sized + Copy {
     type Hash: GenericHashOut<F>;
+
+    type Permutation: PlonkyPermutation<F>;
 
     spec fn spec_hash_no_pad(input: Seq<F>) -> Self::Hash;
 
